@@ -149,6 +149,21 @@ KANI_UNITS["ov_pipes"] = {
                 r"vk_slow": "one key in a real std HashMap with a constant hasher; <= 2 finalize calls"},
 }
 
+KANI_UNITS["vk_join"] = {
+    "mode": "dep", "crate": "contracts/kani/vk_join", "props": ["C13"],
+    "gen": [("src/pull/half_join_state/mod.rs.in", "src/pull/half_join_state/mod.rs"), ("src/pull/half_join_state/set.rs.in", "src/pull/half_join_state/set.rs"),
+            ("src/pull/half_join_state/multiset.rs.in", "src/pull/half_join_state/multiset.rs")],
+    "what": "dfir_pipes half_join_state/{mod,set,multiset}.rs extracted verbatim (whole files; one stated substitution std::collections::hash_map:: -> "
+            "rustc_hash::hash_map::) over a contract double of the hash map; the REAL build / probe / pop_match / full_probe / clear against the "
+            "HalfJoinState contract in executable form",
+    "instantiation": "Key = ValBuild = ValProbe = u8 over a 2 x 2 domain",
+    "bounded": {r".*": "one built pair + one probe (hit / miss); two values built under one key (return value of build, len, full_probe)"},
+    "trusted": ["contracts/kani/vk_join/shims/rustc_hash: CONTRACT DOUBLE of rustc_hash::FxHashMap and std::collections::hash_map::{Entry, Iter} "
+                "(insertion-ordered association list); the real hashbrown table is outside CBMC's reach beyond one entry",
+                "contracts/kani/vk_join/shims/smallvec: CONTRACT DOUBLE of smallvec::SmallVec (a Vec with push / Deref to slice); the real inline/spill "
+                "storage makes a second value under one key intractable for CBMC"],
+}
+
 KANI_UNITS["ov_join"] = {
     "mode": "overlay", "crate": "contracts/kani/ov_join", "package": "dfir_pipes", "prefix": "dfir_pipes/src", "props": ["C13"],
     "what": "the real HalfSetJoinState / HalfMultisetJoinState (FxHashMap + SmallVec + VecDeque) with ONE built pair, concrete keys, symbolic values",
@@ -250,6 +265,7 @@ PROPS["C14"] = [("kani", "ov_sink", ["vk_harness"], ("quick", "thorough"))]
 # C16 NOT registered (tool limit, DESIGN.md section 11): vk_mpsc kept for the record
 
 PROPS["C13"] = [("kani", "ov_pipes", ["symmetric_hash_join"], ("quick", "thorough")),
+                ("kani", "vk_join", ["harness::half_"], ("quick", "thorough")),
                 ("kani", "ov_join", ["half_join_state"], ("thorough",))]
 
 # C17 NOT registered: see mkmanifest NOT_APPLICABLE (vk_uf kept for reference; every harness times out at 1200 s)
